@@ -151,7 +151,7 @@ impl TransformerContext {
 //@       let dx = off(el.attrs@, "x"@)->Some_0; let dy = off(el.attrs@, "y"@)->Some_0;
 //@       let moved = (val(b0.x1) + dx, val(b0.y1) + dy, val(b0.x2) + dx, val(b0.y2) + dy);
 //@       r->Ok_0 is Some && bx(r->Ok_0->Some_0) == (if el.attrs@.dom().contains("transform"@) { xf_apply(xf_parse(el.attrs@["transform"@])->Some_0, moved) } else { moved }) })     @@C08.use.translated @@C08.use.own_transform
-//@ - r is Ok && (el.name@ == "use"@ || el.name@ == "reuse"@) && !unresolved(el.name@, el.attrs@) && target_of(*self, *el) is Some
+//@ - r is Ok && (el.name@ == "use"@ || el.name@ == "reuse"@) && target_of(*self, *el) is Some
 //@     && unresolved(target_of(*self, *el)->Some_0.name@, target_of(*self, *el)->Some_0.attrs@) ==> false     @@C08.use.pending_target_is_error @@C10.use.pending_target_is_error
 //@ - (el.name@ == "use"@ || el.name@ == "reuse"@) && !unresolved(el.name@, el.attrs@) && target_of(*self, *el) is Some && own_bbox(target_of(*self, *el)->Some_0) is Some && own_bbox(target_of(*self, *el)->Some_0)->Some_0 is Some
 //@     && ((el.attrs@.dom().contains("x"@) && strp_spec(el.attrs@["x"@]) is None) || (el.attrs@.dom().contains("y"@) && strp_spec(el.attrs@["y"@]) is None)) ==> r is Err     @@C10.use.unresolved_offset_is_error @@C08.use.unresolved_offset_is_error
